@@ -217,6 +217,53 @@ def Explainer.classList (e : Explainer) (tbl : List (Nat × Nat)) : List Piece :
   | gg :: more => [sp] ++ e.writeGlyphList gg ++ more.flatMap fun gg' => [commaP, sp] ++ e.writeGlyphList gg'
 
 
+/-- `explainNested`: `index@position` separated by spaces -/
+def actP (a : Action) : List Piece := [tk tInteger (decimal a.1), tk tAt [64], tk tInteger (decimal a.2)]
+
+def nestedP : List Action → List Piece
+  | [] => []
+  | a :: rest => actP a ++ rest.flatMap fun b => [sp] ++ actP b
+
+/-- `" | "` -/
+def barP : List Piece := [sp, tk tBar [124], sp]
+
+/-- a class reference: `::` for class 0, `:c<n>:` otherwise -/
+def classRefP (c : Nat) : List Piece :=
+  if c == 0 then [tk tColon [58], tk tColon [58]]
+  else [tk tColon [58], tk tIdentifier (99 :: decimal c), tk tColon [58]]
+
+/-- `writeClassList`: every reference preceded by a space -/
+def clsListP (l : List Nat) : List Piece := l.flatMap fun c => [sp] ++ classRefP c
+
+/-- texts separated by a comma (the texts start with a space) -/
+def commaJoin : List (List Piece) → List Piece
+  | [] => []
+  | x :: xs => x ++ xs.flatMap fun y => [commaP] ++ y
+
+/-- texts separated by a space -/
+def spaceJoin : List (List Piece) → List Piece
+  | [] => []
+  | x :: xs => x ++ xs.flatMap fun y => [sp] ++ y
+
+/-- the rules of a class-based subtable in the order written: class of the first element with each rule -/
+def flatRules : List (List SeqRule) → Nat → List (Nat × SeqRule)
+  | [], _ => []
+  | rs :: more, c => rs.map (fun r => (c, r)) ++ flatRules more (c + 1)
+
+def flatChRules : List (List ChRule) → Nat → List (Nat × ChRule)
+  | [], _ => []
+  | rs :: more, c => rs.map (fun r => (c, r)) ++ flatChRules more (c + 1)
+
+/-- `defineClasses`: `keyword :c<i>: = [glyphs]⏎⇥` for the classes 1, 2, … -/
+def classDefsP (kw : List Nat) (wgs : List Nat → List Piece) : List (List Nat) → Nat → List Piece
+  | [], _ => []
+  | gg :: more, i =>
+    [tk tIdentifier kw, sp, tk tColon [58], tk tIdentifier (99 :: decimal i), tk tColon [58], sp, tk tEqual [61], sp] ++
+      wgs gg ++ [eolP, tab] ++ classDefsP kw wgs more (i + 1)
+
+def Explainer.defineClasses (e : Explainer) (kw : List Nat) (tbl : List (Nat × Nat)) : List Piece :=
+  classDefsP kw e.writeGlyphSet (classGlyphs tbl) 1
+
 def Explainer.subtable (e : Explainer) (first : Bool) : Subtable → List Piece
   | .gsub1_1 cov delta =>
     e.seqMappings (cov.map fun g => ([g], [(g + delta) % 65536])) true
@@ -249,6 +296,29 @@ def Explainer.subtable (e : Explainer) (first : Bool) : Subtable → List Piece
     match marks.map (fun r => markP (e.writeGlyph r.1) r.2) ++ bases.map (fun r => baseP (e.writeGlyph r.1) r.2) with
     | [] => []
     | r0 :: rest => (if first then [eolP, tab] else []) ++ r0 ++ rest.flatMap (fun r => [eolP, tab] ++ r)
+
+  | .ctx1 rules =>
+    entries ((rules.flatMap fun p => p.2.map fun r => (p.1 :: r.input, r.actions)).map fun x =>
+      e.writeGlyphList x.1 ++ arrow ++ nestedP x.2)
+  | .ctx2 cov classes rules =>
+    [sp] ++ e.defineClasses kwClass classes ++ [tk tSlash [47]] ++ e.writeGlyphList cov ++ [tk tSlash [47]] ++
+      commaJoin ((flatRules rules 0).map fun x => clsListP (x.1 :: x.2.input) ++ arrow ++ nestedP x.2.actions)
+  | .ctx3 input actions =>
+    spaceJoin (input.map e.writeGlyphSet) ++ arrow ++ nestedP actions
+  | .chain1 rules =>
+    entries ((rules.flatMap fun p => p.2.map fun r => (p.1, r)).map fun x =>
+      e.writeGlyphList x.2.back.reverse ++ barP ++ e.writeGlyphList (x.1 :: x.2.input) ++ barP ++
+        e.writeGlyphList x.2.look ++ arrow ++ nestedP x.2.actions)
+  | .chain2 cov bcls icls lcls rules =>
+    [sp] ++ e.defineClasses kwBacktrackclass bcls ++ e.defineClasses kwInputclass icls ++
+      e.defineClasses kwLookaheadclass lcls ++ [tk tSlash [47]] ++ e.writeGlyphList cov ++ [tk tSlash [47]] ++
+      commaJoin ((flatChRules rules 0).map fun x =>
+        clsListP x.2.back.reverse ++ barP ++ clsListP (x.1 :: x.2.input) ++ barP ++ clsListP x.2.look ++
+          arrow ++ nestedP x.2.actions)
+  | .chain3 back input look actions =>
+    spaceJoin (back.reverse.map e.writeGlyphSet) ++ [sp, tk tBar [124]] ++
+      (input.flatMap fun s => [sp] ++ e.writeGlyphSet s) ++ [sp, tk tBar [124]] ++
+      (look.flatMap fun s => [sp] ++ e.writeGlyphSet s) ++ arrow ++ nestedP actions
 
 /-- `" ||\n\t"` -/
 def orSep : List Piece := [sp, tk tOr [124, 124], eolP, tab]
